@@ -164,7 +164,7 @@ fn run_pair_job(cfg: &Cfg, seen: &Seen, job: &PairJob, level: Level) -> Part {
     for x in &job.lhs[job.lo..job.hi] {
         let m = x.v.bits();
         let root = x.show();
-        let org = Origin { root: &root, prefix: &[] };
+        let org = Origin::Fixed { root: &root, prefix: &[] };
         let kind = x.v.kind();
         part.state(&x.v.raw());
         for r in job.rhs.iter() {
@@ -337,4 +337,530 @@ pub fn run_bin_plan(cfg: &Cfg, plan: &BinPlan) -> (Part, Value, bool) {
         "partitions": njobs,
     });
     (part, bounds, true)
+}
+
+// ------------------------------------------------------------------------------------------------
+// unary / amount-parameterised operations (shifts, rotations, not, shl_in/shr_in)
+// ------------------------------------------------------------------------------------------------
+
+/// Which single-operand actions to generate for a subject.
+#[derive(Clone)]
+pub enum UnaryAlphabet {
+    /// `!a` and `!&a`
+    Not,
+    /// shifts: amounts = boundary set (typed per `typed`), forms
+    Shifts { forms: Vec<Form>, all_types: bool },
+    /// shifts by every value of one narrow amount type
+    ShiftsComplete { ty: NatTy, forms: Vec<Form> },
+    /// shl_in / shr_in with both bits
+    ShiftIn,
+    /// rotl/rotr by every k in 0..=n; `inverse` also applies the opposite rotation to the result
+    Rot { inverse: bool },
+}
+
+fn unary_acts(alpha: &UnaryAlphabet, kind: K, n: usize) -> Vec<Act> {
+    let mut v = Vec::new();
+    match alpha {
+        UnaryAlphabet::Not => {
+            v.push(Act::Not { by_ref: false });
+            v.push(Act::Not { by_ref: true });
+        }
+        UnaryAlphabet::Shifts { forms, all_types } => {
+            let amts = if *all_types { enumr::amounts_typed(n, kind.word()) } else { enumr::amounts_narrowest(n, kind.word()) };
+            for amt in amts {
+                for &form in forms {
+                    for left in [true, false] {
+                        v.push(Act::Shift { left, amt, form });
+                    }
+                }
+            }
+        }
+        UnaryAlphabet::ShiftsComplete { ty, forms } => {
+            for amt in enumr::all_of(*ty) {
+                for &form in forms {
+                    for left in [true, false] {
+                        v.push(Act::Shift { left, amt, form });
+                    }
+                }
+            }
+        }
+        UnaryAlphabet::ShiftIn => {
+            for b in [false, true] {
+                v.push(Act::ShlIn(b));
+                v.push(Act::ShrIn(b));
+            }
+        }
+        UnaryAlphabet::Rot { .. } => {
+            for k in 0..=n {
+                v.push(Act::Rotl(k));
+                v.push(Act::Rotr(k));
+            }
+        }
+    }
+    v
+}
+
+struct UnaryJob {
+    label: String,
+    lhs: Arc<Vec<Vo>>,
+    lo: usize,
+    hi: usize,
+    alpha: UnaryAlphabet,
+}
+
+fn run_unary_job(cfg: &Cfg, seen: &Seen, job: &UnaryJob, level: Level) -> Part {
+    let mut part = Part::new();
+    let mut cache: BTreeMap<(K, usize), Vec<Act>> = BTreeMap::new();
+    for x in &job.lhs[job.lo..job.hi] {
+        let m = x.v.bits();
+        let kind = x.v.kind();
+        let n = m.len();
+        let root = x.show();
+        let org = Origin::Fixed { root: &root, prefix: &[] };
+        part.state(&x.v.raw());
+        let acts = cache.entry((kind, n)).or_insert_with(|| unary_acts(&job.alpha, kind, n));
+        for a in acts.iter() {
+            match a {
+                Act::Shift { amt, .. } => {
+                    if amt.val() > u64::MAX as u128 {
+                        part.count("shift_amount_above_usize_max", 1);
+                    } else if amt.val() >= n as u128 {
+                        part.count("shift_amount_ge_len", 1);
+                    } else if amt.val() > 0 && n > kind.word() {
+                        part.count("shift_inside_multiword", 1);
+                    }
+                }
+                Act::Rotl(k) | Act::Rotr(k) => {
+                    if *k > 0 && *k < n && n > kind.word() {
+                        part.count("rotation_across_word_boundary", 1);
+                    }
+                    if n == 0 {
+                        part.count("rotation_of_empty", 1);
+                    }
+                }
+                Act::ShlIn(_) | Act::ShrIn(_) => {
+                    if n == 0 {
+                        part.count("shift_in_on_empty", 1);
+                    }
+                }
+                _ => {}
+            }
+            let out = step(cfg, &mut part, seen, level, &org, &x.v, &m, a);
+            if let Some(y) = &out.next {
+                part.outcome(&a.op_name(), crate::report::fingerprint(&y.raw()));
+                if let UnaryAlphabet::Rot { inverse: true } = job.alpha {
+                    // second step of the history: the opposite rotation must restore the original
+                    let (inv, k) = match a {
+                        Act::Rotl(k) => (Act::Rotr(*k), *k),
+                        Act::Rotr(k) => (Act::Rotl(*k), *k),
+                        _ => unreachable!(),
+                    };
+                    let m1 = y.bits();
+                    let prefix = vec![a.show()];
+                    let org2 = Origin::Fixed { root: &root, prefix: &prefix };
+                    let out2 = step(cfg, &mut part, seen, level, &org2, y, &m1, &inv);
+                    if let Some(z) = &out2.next {
+                        if !out.violated && !out2.violated && z.bits() != m {
+                            // cannot happen when both steps equal the model; kept as a harness self-check
+                            panic!("harness: rotation inverse inconsistent with per-step oracle k={}", k);
+                        }
+                        if m1.popcount() != m.popcount() && !out.violated {
+                            panic!("harness: popcount changed but step accepted");
+                        }
+                    }
+                }
+            }
+        }
+    }
+    part.partitions.push(json!({"partition": job.label, "lhs_roots": job.hi - job.lo, "complete": true}));
+    part
+}
+
+pub struct UnaryPlan {
+    /// (kinds, FULL bound, alphabet)
+    pub full: Vec<(Vec<K>, usize, UnaryAlphabet)>,
+    /// (kinds, max runs, alphabet) on the lattice
+    pub lat: Vec<(Vec<K>, usize, UnaryAlphabet)>,
+    pub lat_short: bool,
+    pub required: Vec<&'static str>,
+}
+
+pub fn run_unary_plan(cfg: &Cfg, plan: &UnaryPlan) -> (Part, Value, bool) {
+    let seen = Seen::new();
+    let mut part = Part::new();
+    for r in &plan.required {
+        part.require(r);
+    }
+    let mut jobs: Vec<UnaryJob> = Vec::new();
+    let mut desc: Vec<Value> = Vec::new();
+    for (kinds, b, alpha) in &plan.full {
+        for &k in kinds {
+            let provs: &[Prov] = if k == K::D || k == K::A { PROVS_SPARE } else { PROVS_PLAIN };
+            // provenance variants only for the small lengths; plain fresh roots above
+            let mut dom = dom_full(&mut part, &seen, k, (*b).min(6), provs);
+            let have: std::collections::HashSet<Raw> = dom.iter().map(|x| x.v.raw()).collect();
+            if *b > 6 {
+                dom.extend(dom_full(&mut part, &seen, k, *b, PROVS_PLAIN).into_iter().filter(|x| !have.contains(&x.v.raw())));
+            }
+            let dom = Arc::new(dom);
+            let chunk = if *b >= 14 { 2048 } else { 128 };
+            let mut lo = 0;
+            while lo < dom.len() {
+                let hi = (lo + chunk).min(dom.len());
+                jobs.push(UnaryJob { label: format!("FULL-{} {} [{}..{}]", b, k.name(), lo, hi), lhs: dom.clone(), lo, hi, alpha: alpha.clone() });
+                lo = hi;
+            }
+            desc.push(json!({"domain": format!("FULL-{}", b.min(&k.cap().unwrap_or(*b))), "kind": k.name(), "roots": dom.len()}));
+        }
+    }
+    for (kinds, runs, alpha) in &plan.lat {
+        for &k in kinds {
+            let provs: &[Prov] = if k == K::D || k == K::A { PROVS_SPARE } else { PROVS_PLAIN };
+            let lengths = if plan.lat_short { enumr::lat_lengths_short(k) } else { enumr::lat_lengths(k) };
+            let dom = Arc::new(dom_lat(&mut part, &seen, k, &lengths, *runs, provs));
+            let mut lo = 0;
+            while lo < dom.len() {
+                let hi = (lo + 16).min(dom.len());
+                jobs.push(UnaryJob { label: format!("LAT {} [{}..{}]", k.name(), lo, hi), lhs: dom.clone(), lo, hi, alpha: alpha.clone() });
+                lo = hi;
+            }
+            desc.push(json!({"domain": "LAT", "kind": k.name(), "lengths": lengths, "max_runs": runs, "roots": dom.len()}));
+        }
+    }
+    let njobs = jobs.len();
+    let capped = std::sync::atomic::AtomicUsize::new(0);
+    let done = jobs
+        .par_iter()
+        .map(|j| {
+            if cfg.out_of_time() {
+                capped.fetch_add(1, std::sync::atomic::Ordering::Relaxed);
+                let mut p = Part::new();
+                p.partitions.push(json!({"partition": j.label, "complete": false, "reason": "wall-clock cap"}));
+                return p;
+            }
+            run_unary_job(cfg, &seen, j, Level::Lite)
+        })
+        .reduce(Part::new, Part::merge);
+    let mut part = part.merge(done);
+    let ncapped = capped.load(std::sync::atomic::Ordering::Relaxed);
+    if ncapped > 0 {
+        part.caps_hit.push(format!("wall-clock cap: {} of {} partitions not run", ncapped, njobs));
+    }
+    part.count("battery_distinct_states", seen.len() as u64);
+    (part, json!({"domains": desc, "partitions": njobs}), true)
+}
+
+// ------------------------------------------------------------------------------------------------
+// C20: all operator forms agree; borrowed operands and earlier clones are untouched
+// ------------------------------------------------------------------------------------------------
+
+struct FormsJob {
+    label: String,
+    lhs: Arc<Vec<Vo>>,
+    lo: usize,
+    hi: usize,
+    rhs: Arc<Vec<Opd>>,
+    ops: Vec<BinOp>,
+}
+
+fn outcome_str(r: &Result<AnyBv, ()>) -> String {
+    match r {
+        Ok(y) => format!("len={} bits={}", y.len(), y.bits().to_binstr()),
+        Err(()) => "panicked".into(),
+    }
+}
+
+fn run_forms_job(cfg: &Cfg, seen: &Seen, job: &FormsJob) -> Part {
+    let _ = cfg;
+    let mut part = Part::new();
+    for x in &job.lhs[job.lo..job.hi] {
+        let xraw = x.v.raw();
+        let m = x.v.bits();
+        let root = x.show();
+        let kind = x.v.kind();
+        part.state(&xraw);
+        for r in job.rhs.iter() {
+            let rraw = match r {
+                Opd::V(v) => Some(v.v.raw()),
+                Opd::N(_) => None,
+            };
+            for &op in &job.ops {
+                let mk = |form: Form, what: &str, expected: String, observed: String| Violation {
+                    op: op.name().into(),
+                    lhs: kind.name().into(),
+                    rhs: r.kind_name().into(),
+                    form: form.name().into(),
+                    flags: flags(&x.v, &m, &Act::Bin { op, form, rhs: r.clone() }),
+                    what: what.into(),
+                    root: root.clone(),
+                    ops: vec![Act::Bin { op, form, rhs: r.clone() }.show()],
+                    check: "forms".into(),
+                    expected,
+                    observed,
+                };
+                let mut reference: Option<(Form, Result<AnyBv, ()>)> = None;
+                for &form in ALL_FORMS {
+                    let mut a = x.v.clone();
+                    let keep = x.v.clone(); // "clone taken before an in-place operation"
+                    let res = guard(|| dispatch::bin_mut(&mut a, op, form, r));
+                    part.transitions += 1;
+                    // operands passed by reference are untouched
+                    if matches!(form, Form::RefRef | Form::RefVal) && res.is_ok() && a.raw() != xraw {
+                        part.violation(mk(form, "lhs_modified", xraw.hex(), a.raw().hex()));
+                    }
+                    if keep.raw() != xraw || x.v.raw() != xraw {
+                        part.violation(mk(form, "clone_modified", xraw.hex(), keep.raw().hex()));
+                    }
+                    if let (Some(rr), Opd::V(v)) = (&rraw, r) {
+                        if &v.v.raw() != rr {
+                            part.violation(mk(form, "rhs_modified", rr.hex(), v.v.raw().hex()));
+                        }
+                    }
+                    if let Ok(y) = &res {
+                        if y.kind() != kind {
+                            part.violation(mk(form, "wrong_type", kind.name().into(), y.kind().name().into()));
+                        }
+                        part.outcome(op.name(), crate::report::fingerprint(&y.raw()));
+                    } else {
+                        part.count("forms_panicking", 1);
+                    }
+                    match &reference {
+                        None => reference = Some((form, res)),
+                        Some((f0, r0)) => {
+                            let same = match (r0, &res) {
+                                (Ok(a), Ok(b)) => a.len() == b.len() && a.bits() == b.bits(),
+                                (Err(()), Err(())) => true,
+                                _ => false,
+                            };
+                            if !same {
+                                part.violation(mk(form, "forms_disagree", format!("{} gives {}", f0.name(), outcome_str(r0)), outcome_str(&res)));
+                            } else if let Ok(y) = &res {
+                                // same visible bits: any representation that is not the fresh one must
+                                // also behave like it
+                                let yb = y.bits();
+                                let mkv = |what: &str, e: String, o: String, _c: &str| mk(form, what, e, o);
+                                check_vector(&mut part, seen, Level::Lite, y, &yb, &mkv, "");
+                            }
+                        }
+                    }
+                }
+                // native integer directly vs a vector built from it in each implementation
+                if let Opd::N(nat) = r {
+                    let direct = reference.as_ref().map(|(_, r)| r.clone()).unwrap();
+                    for k2 in [K::F64x2, K::F128x1, K::D, K::A] {
+                        let built = mccore::conv::from_nat(k2, *nat, false);
+                        if let Ok(v) = built {
+                            let r2 = Opd::V(Vo { v, p: Prov::Fresh });
+                            let res = guard(|| dispatch::bin(x.v.clone(), op, Form::RefRef, &r2));
+                            part.transitions += 1;
+                            part.count("native_vs_built_vector", 1);
+                            let same = match (&direct, &res) {
+                                (Ok(a), Ok(b)) => a.len() == b.len() && a.bits() == b.bits(),
+                                (Err(()), Err(())) => true,
+                                _ => false,
+                            };
+                            if !same {
+                                let mut v = mk(Form::RefRef, "native_vs_vector_disagree", format!("direct {} gives {}", nat.show(), outcome_str(&direct)), format!("via {}: {}", k2.name(), outcome_str(&res)));
+                                v.rhs = format!("{}~{}", nat.ty().name(), k2.name());
+                                part.violation(v);
+                            }
+                        }
+                    }
+                }
+                if !part.has_sample(op.name()) {
+                    if let Some((_, Ok(y))) = &reference {
+                        part.sample(op.name(), json!({"lhs": root, "rhs": match r { Opd::V(v) => v.show(), Opd::N(n) => n.show() }, "op": op.name(),
+                            "forms": ALL_FORMS.iter().map(|f| f.name()).collect::<Vec<_>>(), "all_forms_result": y.bits().to_binstr()}));
+                    }
+                }
+            }
+        }
+    }
+    part.partitions.push(json!({"partition": job.label, "lhs_roots": job.hi - job.lo, "rhs_operands": job.rhs.len(), "complete": true}));
+    part
+}
+
+/// C20 for the shift operators: six forms (amount by value / by reference, lhs owned / borrowed /
+/// in place) must agree.
+fn run_shift_forms(part: &mut Part, seen: &Seen, dom: &[Vo]) {
+    for x in dom {
+        let kind = x.v.kind();
+        let m = x.v.bits();
+        let xraw = x.v.raw();
+        let root = x.show();
+        for amt in enumr::amounts_narrowest(m.len(), kind.word()) {
+            for left in [true, false] {
+                let mut reference: Option<Result<AnyBv, ()>> = None;
+                for &form in ALL_FORMS {
+                    let mut a = x.v.clone();
+                    let res = guard(|| dispatch::shift_mut(&mut a, left, form, &amt));
+                    part.transitions += 1;
+                    let mk = |what: &str, expected: String, observed: String| Violation {
+                        op: if left { "shl".into() } else { "shr".into() },
+                        lhs: kind.name().into(),
+                        rhs: amt.ty().name().into(),
+                        form: form.name().into(),
+                        flags: flags(&x.v, &m, &Act::Shift { left, amt, form }),
+                        what: what.into(),
+                        root: root.clone(),
+                        ops: vec![Act::Shift { left, amt, form }.show()],
+                        check: "forms".into(),
+                        expected,
+                        observed,
+                    };
+                    if matches!(form, Form::RefRef | Form::RefVal) && res.is_ok() && a.raw() != xraw {
+                        part.violation(mk("lhs_modified", xraw.hex(), a.raw().hex()));
+                    }
+                    match &reference {
+                        None => reference = Some(res),
+                        Some(r0) => {
+                            let same = match (r0, &res) {
+                                (Ok(a), Ok(b)) => a.len() == b.len() && a.bits() == b.bits(),
+                                (Err(()), Err(())) => true,
+                                _ => false,
+                            };
+                            if !same {
+                                part.violation(mk("forms_disagree", outcome_str(r0), outcome_str(&res)));
+                            } else if let Ok(y) = &res {
+                                let yb = y.bits();
+                                let mkv = |what: &str, e: String, o: String, _c: &str| mk(what, e, o);
+                                check_vector(part, seen, Level::Lite, y, &yb, &mkv, "");
+                            }
+                        }
+                    }
+                }
+            }
+        }
+    }
+}
+
+pub fn run_forms_plan(cfg: &Cfg, b: usize, lat: bool, lat_rhs: &[K]) -> (Part, Value, bool) {
+    let seen = Seen::new();
+    let mut part = Part::new();
+    part.require("native_vs_built_vector");
+    part.require("forms_panicking");
+    let mut jobs: Vec<FormsJob> = Vec::new();
+    let ops = mccore::dispatch::ALL_BINOPS.to_vec();
+    let full_lhs = [K::F8x1, K::F8x2, K::F16x1, K::F64x2, K::D, K::A];
+    let full_rhs = [K::F8x1, K::F8x3, K::F16x1, K::F64x2, K::D, K::A];
+    let mut doms: BTreeMap<K, Arc<Vec<Vo>>> = BTreeMap::new();
+    for &k in full_lhs.iter().chain(full_rhs.iter()) {
+        if !doms.contains_key(&k) {
+            let provs: &[Prov] = if k == K::D || k == K::A { PROVS_SPARE2 } else { PROVS_PLAIN };
+            let mut d = dom_full(&mut part, &seen, k, b.min(4), provs);
+            let have: std::collections::HashSet<Raw> = d.iter().map(|x| x.v.raw()).collect();
+            d.extend(dom_full(&mut part, &seen, k, b, PROVS_PLAIN).into_iter().filter(|x| !have.contains(&x.v.raw())));
+            doms.insert(k, Arc::new(d));
+        }
+    }
+    for &lk in &full_lhs {
+        for &rk in &full_rhs {
+            let l = doms[&lk].clone();
+            let r = Arc::new(to_opds(&doms[&rk]));
+            let mut lo = 0;
+            while lo < l.len() {
+                let hi = (lo + 32).min(l.len());
+                jobs.push(FormsJob { label: format!("FULL-{} {}x{} [{}..{}]", b, lk.name(), rk.name(), lo, hi), lhs: l.clone(), lo, hi, rhs: r.clone(), ops: ops.clone() });
+                lo = hi;
+            }
+        }
+    }
+    let mut lat_doms: BTreeMap<K, Arc<Vec<Vo>>> = BTreeMap::new();
+    if lat {
+        for &k in ALL_KINDS {
+            let provs: &[Prov] = if k == K::D || k == K::A { PROVS_SPARE2 } else { PROVS_PLAIN };
+            lat_doms.insert(k, Arc::new(dom_lat(&mut part, &seen, k, &enumr::lat_lengths_short(k), 2, provs)));
+        }
+        for &lk in ALL_KINDS {
+            let mut rks = lat_rhs.to_vec();
+            if !rks.contains(&lk) {
+                rks.push(lk);
+            }
+            for rk in rks {
+                let l = lat_doms[&lk].clone();
+                // every third lattice value as right operand keeps the pair count linear-ish
+                let r = Arc::new(to_opds(&lat_doms[&rk].iter().step_by(3).cloned().collect::<Vec<_>>()));
+                let mut lo = 0;
+                while lo < l.len() {
+                    let hi = (lo + 16).min(l.len());
+                    jobs.push(FormsJob { label: format!("LAT {}x{} [{}..{}]", lk.name(), rk.name(), lo, hi), lhs: l.clone(), lo, hi, rhs: r.clone(), ops: ops.clone() });
+                    lo = hi;
+                }
+            }
+        }
+    }
+    // natives against every kind
+    for &lk in ALL_KINDS {
+        let l: Arc<Vec<Vo>> = match lat_doms.get(&lk) {
+            Some(d) => d.clone(),
+            None => Arc::new(dom_lat(&mut part, &seen, lk, &enumr::lat_lengths_short(lk), 2, PROVS_PLAIN)),
+        };
+        for &ty in ALL_NAT {
+            let r: Arc<Vec<Opd>> = Arc::new(enumr::ul(ty).into_iter().step_by(2).map(Opd::N).collect());
+            let mut lo = 0;
+            while lo < l.len() {
+                let hi = (lo + 32).min(l.len());
+                jobs.push(FormsJob { label: format!("NAT {}x{} [{}..{}]", lk.name(), ty.name(), lo, hi), lhs: l.clone(), lo, hi, rhs: r.clone(), ops: ops.clone() });
+                lo = hi;
+            }
+        }
+    }
+    let njobs = jobs.len();
+    let capped = std::sync::atomic::AtomicUsize::new(0);
+    let done = jobs
+        .par_iter()
+        .map(|j| {
+            if cfg.out_of_time() {
+                capped.fetch_add(1, std::sync::atomic::Ordering::Relaxed);
+                let mut p = Part::new();
+                p.partitions.push(json!({"partition": j.label, "complete": false, "reason": "wall-clock cap"}));
+                return p;
+            }
+            run_forms_job(cfg, &seen, j)
+        })
+        .reduce(Part::new, Part::merge);
+    let mut part = part.merge(done);
+    // shifts
+    let shift_parts: Vec<Part> = ALL_KINDS
+        .par_iter()
+        .map(|&k| {
+            let mut p = Part::new();
+            let provs: &[Prov] = if k == K::D || k == K::A { PROVS_SPARE2 } else { PROVS_PLAIN };
+            let mut d = dom_lat(&mut p, &seen, k, &enumr::lat_lengths_short(k), 2, provs);
+            if k.word() == 8 || k == K::D || k == K::A {
+                d.extend(dom_full(&mut p, &seen, k, b.min(6), PROVS_PLAIN));
+            }
+            run_shift_forms(&mut p, &seen, &d);
+            p.partitions.push(json!({"partition": format!("SHIFT-FORMS {}", k.name()), "lhs_roots": d.len(), "complete": true}));
+            p
+        })
+        .collect();
+    for p in shift_parts {
+        part = part.merge(p);
+    }
+    let ncapped = capped.load(std::sync::atomic::Ordering::Relaxed);
+    if ncapped > 0 {
+        part.caps_hit.push(format!("wall-clock cap: {} of {} partitions not run", ncapped, njobs));
+    }
+    (part, json!({"full_bound_bits": b, "full_lhs": full_lhs.iter().map(|k| k.name()).collect::<Vec<_>>(), "full_rhs": full_rhs.iter().map(|k| k.name()).collect::<Vec<_>>(),
+        "lattice": lat, "ops": "+ - * / % & | ^ (6 forms each), << >> (6 forms each)", "oracle": "differential: all forms must agree with each other; operands re-read after each call", "partitions": njobs}), true)
+}
+
+/// Replay of a `forms` violation: one left operand, one operator application, all forms.
+pub fn replay_forms(cfg: &Cfg, root: &str, ops: &[String]) -> Result<Part, String> {
+    let x = Vo::parse(root).ok_or_else(|| format!("cannot parse root {}", root))?;
+    let a = ops.first().and_then(|o| Act::parse(o)).ok_or_else(|| "cannot parse op".to_string())?;
+    let seen = Seen::new();
+    match a {
+        Act::Bin { op, rhs, .. } => {
+            let job = FormsJob { label: "replay".into(), lhs: Arc::new(vec![x]), lo: 0, hi: 1, rhs: Arc::new(vec![rhs]), ops: vec![op] };
+            Ok(run_forms_job(cfg, &seen, &job))
+        }
+        Act::Shift { .. } => {
+            let mut p = Part::new();
+            run_shift_forms(&mut p, &seen, &[x]);
+            Ok(p)
+        }
+        _ => Err("forms replay needs a bin or shift op".into()),
+    }
 }
